@@ -325,3 +325,22 @@ mod tests {
         assert_eq!(data, &decrypted[..]);
     }
 }
+
+/// Verification access shims (compiled only by the Kani model checker).
+#[cfg(kani)]
+pub mod verif_access {
+    use super::Arc4Cipher;
+
+    /// Builds a cipher from raw parts.
+    pub fn from_parts(s: [u8; 256], i: u8, j: u8) -> Arc4Cipher {
+        Arc4Cipher { s, i, j }
+    }
+    /// Raw parts of a cipher.
+    pub fn parts(c: &Arc4Cipher) -> ([u8; 256], u8, u8) {
+        (c.s, c.i, c.j)
+    }
+    /// Calls the private `next_keystream_byte`.
+    pub fn next_keystream_byte(c: &mut Arc4Cipher) -> u8 {
+        c.next_keystream_byte()
+    }
+}
